@@ -429,9 +429,37 @@ class StructCodec(AbstractMetadataCodec):
         if fixed_length is not None:
             return array_decode_fixed_length
         elif exhaust_buffer:
+            # The exhaust loop only stops when an element decoder runs out of bytes, so
+            # elements that can be decoded from an empty buffer would loop forever.
+            if StructCodec.can_decode_empty(sub_schema["items"]):
+                raise exceptions.MetadataSchemaValidationError(
+                    "Items of an array with noLengthEncodingExhaustBuffer must be"
+                    " at least one byte wide"
+                )
             return array_decode_exhaust
         else:
             return array_decode
+
+    @classmethod
+    def can_decode_empty(cls, sub_schema):
+        """
+        True if a value of this schema can be decoded from an empty buffer.
+        """
+        type_ = sub_schema["type"]
+        if type_ == "object" or set(type_) == {"object", "null"}:
+            return all(
+                cls.can_decode_empty(prop) for prop in sub_schema["properties"].values()
+            )
+        elif type_ == "array":
+            if sub_schema.get("length") is not None:
+                return sub_schema["length"] <= 0 or cls.can_decode_empty(
+                    sub_schema["items"]
+                )
+            return sub_schema.get("noLengthEncodingExhaustBuffer", False)
+        elif type_ == "null":
+            return struct.calcsize(sub_schema.get("binaryFormat", "0x")) == 0
+        else:
+            return struct.calcsize("<" + sub_schema["binaryFormat"]) == 0
 
     @classmethod
     def make_object_decode(cls, sub_schema):
